@@ -177,13 +177,17 @@ def flush_inconclusive(part):
 # return; nothing here nests deeper than the opener.
 PUMP_OPENERS = ["", "{{x", "{{x|", "{{{x|", "{{#if:x|", "[[a", "[[a|",
                 "[http://x.org ", "<b>", "<span ", "{|\n|", "-{", "<ref>",
-                "<nowiki>", "<!--", "'''", "== ", "<pre>", "\n* "]
+                "<nowiki>", "<!--", "'''", "== ", "<pre>", "\n* ",
+                "{||", "{| ", "{|\n|-", "{|\n|+", "{|\n!", "<span a=b "]
 PUMP_UNITS = ["-{}-", "-{", "}-", "{", "}", "{{", "}}", "[", "]", "[[", "]]",
               "|", "||", "\n|", "\n!", "''", "'''", "<", ">", "</", "<b", "<b>",
               "</b>", "<br>", "<!--", "-->", "&", "&amp;", "=", "==", "\n", " ",
               "x", "a=", "://", "http://x.org", "{|", "|}", "\n*", "\n:", ";",
-              "__TOC__", "<nowiki/>", "{{{", "}}}", "[[a|", "{{t|", "~~~~", "\\"]
+              "__TOC__", "<nowiki/>", "{{{", "}}}", "[[a|", "{{t|", "~~~~", "\\", "{{t||1=x}}", "{{t|a=b}}", "k=v", "k=v ", "=\"", "a=b=c",
+              "k='v'", "{{#if:|1=x}}"]
 PUMP_N = 40
+PUMP_CLOSERS = ["<abbr/>|", "\"||x", "}}", "]]", "\n|}", "|\n", "\n|-\n|x",
+                ">", "'|", "</b>"]
 
 
 def pump_cases(quick):
@@ -192,6 +196,13 @@ def pump_cases(quick):
     for o in PUMP_OPENERS:
         for u in PUMP_UNITS:
             yield o + u * PUMP_N
+    # ... followed by something that makes a look-back over the repeated
+    # units fail at its very end (a separator after junk, a stray quote)
+    for o in PUMP_OPENERS:
+        for u in PUMP_UNITS:
+            for c in PUMP_CLOSERS[(len(o) + len(u)) % 2::2] if quick \
+                    else PUMP_CLOSERS:
+                yield o + u * (PUMP_N // 2) + c
     pair_units = PUMP_UNITS[:24] if quick else PUMP_UNITS
     for o in PUMP_OPENERS[: 8 if quick else len(PUMP_OPENERS)]:
         for a, b in itertools.permutations(pair_units, 2):
